@@ -13,7 +13,7 @@ the exit status, takes `-exitcode` as a signal number and — unless that is 15 
 makes `OSError(signal)` the error (repaired code, F13: the pinned code *raised* it in the
 collector and left the future unresolved).  Then (repaired code, F15) it waits for the child's
 sentinel, puts the end mark into the log queue and joins the logger thread (bounded when the
-child was terminated), closes the pipe and resolves the future: `set_exception(error)` if
+child did not end by itself: EOF seen, or a negative exit status), closes the pipe and resolves the future: `set_exception(error)` if
 `error is not None` else `set_result(result)`.
 `join`/`result`/`exception` first join the process at OS level, then the collector thread, then
 consult the future; `done`/`exitcode` look at the OS exit status; `wait`/`as_completed` wait on
@@ -24,8 +24,14 @@ Every source of nondeterminism is an action: how far the child got when a signal
 collector and logger, and which accessor the user calls when (`ask a`, enabled exactly when the
 real accessor would return; its answer is appended to the history `answers`).
 
-Assumed (trusted base): the pipe is FIFO and message-framed, `recv` raises `EOFError` exactly
-when the pipe is empty and every write end is closed, a dead child's write end is closed, the
+A child killed in the middle of writing a message leaves a partial message; `recv` then raises
+`OSError("got end of file during message")` instead of `EOFError`; the repaired collector (F24)
+treats both alike, so in the model a partially written message counts as not sent (`pipe` holds
+complete messages only, `kEof` stands for either error).
+
+Assumed (trusted base): the pipe is FIFO and message-framed, `recv` fails (`EOFError`/`OSError`)
+exactly when no complete message is left and every write end is closed, a dead child's write end
+is closed, the
 exit status of a child killed by signal `sig` is `-sig`, `sys.exit(k)` gives status `k mod 256`;
 the logger thread stops after the end mark (that is C20's theorem, `Model/LogPipe.lean`).
 
@@ -194,6 +200,11 @@ def answer (a : Acc) (s : State) : Ans :=
     | some f => ansOfFut a f s.exitcode
     | none => .completed     -- unreachable under `canAnswer`
 
+/-- the exit status says the child was killed by a signal -/
+def diedBySignal : Option Int → Bool
+  | some x => decide (x < 0)
+  | none => false
+
 def step (c : Cfg) (s : State) : Act → Option State
   | .cBoot => if s.cpc = .boot then some { s with cpc := .target } else none
   | .cTargetEnd => if s.cpc = .target then some { s with cpc := .send1 } else none
@@ -236,7 +247,10 @@ def step (c : Cfg) (s : State) : Act → Option State
   | .logStop =>
     if s.logEnd = true ∧ s.logStopped = false then some { s with logStopped := true } else none
   | .kJoinLog =>
-    if s.kpc = .joinLog ∧ (s.logStopped = true ∨ s.terminated = true) then some { s with kpc := .resolve }
+    -- `_logger_thread_.join(1 if terminated or self.exitcode < 0 else None)`: bounded (always returns)
+    -- when the child did not end by itself, otherwise until the logger thread has ended
+    if s.kpc = .joinLog ∧ (s.logStopped = true ∨ s.terminated = true ∨ diedBySignal s.exitcode = true) then
+      some { s with kpc := .resolve }
     else none
   | .kResolve =>
     if s.kpc = .resolve then some { s with kpc := .done, fut := some (resolveWith s.result s.error) }
